@@ -1708,6 +1708,9 @@ func (p *scionPacketProcessor) process() disposition {
 	if disp := p.determinePeer(); disp != pForward {
 		return disp
 	}
+	if disp := p.updateNonConsDirIngressSegID(); disp != pForward {
+		return disp
+	}
 	if disp := p.validateHopExpiry(); disp != pForward {
 		return disp
 	}
@@ -1724,9 +1727,6 @@ func (p *scionPacketProcessor) process() disposition {
 		return disp
 	}
 	if disp := p.validateSrcHost(); disp != pForward {
-		return disp
-	}
-	if disp := p.updateNonConsDirIngressSegID(); disp != pForward {
 		return disp
 	}
 	if disp := p.verifyCurrentMAC(); disp != pForward {
